@@ -757,7 +757,9 @@ def convert_resizebilinear_to_depthwise_convolutions(op, half_pixel_centers=True
         avgpool_op.attrs["strides"] = [1, 1, 1, 1]
         avgpool_op.attrs["ksize"] = [1, 1, 1, 1]
 
-        avgpool_op.add_input_tensor(ifm)
+        # the resize operator is reused as the average pool: the IFM is its only input (it already is input 0; adding
+        # it once more would leave a second reference that later rewrites of input 0 do not follow)
+        avgpool_op.inputs = [ifm]
         avgpool_op.set_output_tensor(intermediate_tens)
         avgpool_op.set_ifm_ofm_shapes()
         DebugDatabase.add_optimised(op, op)
